@@ -17,6 +17,10 @@ structure DSt where
   delFlag : Nat → Option Bool := fun _ => none
   /-- a stale callback has removed a live instance's map entry in this case -/
   staleUsed : Bool := false
+  /-- the instance a thread left the body with -/
+  got : Nat → Option Nat := fun _ => none
+  /-- fact exitRechecksClosing -/
+  exitRechecks : Bool := true
 
 def act (d : DSt) (a : Act) : DSt :=
   match step d.cfg d.s a with
@@ -101,10 +105,12 @@ def goThread (d : DSt) (t : Nat) (obs : Option Nat := none) : DSt × String :=
       let d := act d (.bodyGet t)
       if (d.s.thr t).pc == .creating then (d, "creating")
       else
+        let d := { d with got := fun y => if y = t then d.s.swampMap else d.got y }
         let (d, w) := unready d t obs
         (d, "found" ++ w)
   | .creating =>
     let d := act (act d (.bodyCreate t)) (.bodyStore t)
+    let d := { d with got := fun y => if y = t then d.s.swampMap else d.got y }
     let (d, w) := unready d t obs
     (d, "created" ++ w)
   | .left1 =>
@@ -121,20 +127,37 @@ def goThread (d : DSt) (t : Nat) (obs : Option Nat := none) : DSt × String :=
     (act d (.leaveDel t), if zero then "deleted" else "kept")
   | .done =>
     match d.delFlag t with
-    | some b => ({ d with delFlag := fun y => if y = t then none else d.delFlag y }, if b then "deleted" else "kept")
+    | some b =>
+      -- the end of the deferred exit: a closed instance is not handed out, the call summons again — an ordinary
+      -- entrant (thread id t+100) that runs to its end; the harness refuses the step while another call is under way
+      let again := d.exitRechecks && !d.cancelled t && (match d.got t with | some i => !d.s.live.contains i | none => false)
+      let busy := threads.any fun y => y != t && !((d.s.thr y).pc == .idle || (d.s.thr y).pc == .done)
+      if again && busy then (d, "busy") else
+      let d := { d with delFlag := fun y => if y = t then none else d.delFlag y }
+      let msg := if b then "deleted" else "kept"
+      let closedGot := !d.cancelled t && (match d.got t with | some i => !d.s.live.contains i | none => false)
+      if !again then (d, msg ++ (if closedGot then " handed-closed" else "")) else
+      let u := t + 100
+      let d := acts18 d [.lookup u, .enter u, .bodyGet u]
+      let d := if (d.s.thr u).pc == .creating then acts18 d [.bodyCreate u, .bodyStore u] else d
+      let d := acts18 d ([.leaveUnready u, .leaveDec u] ++ (if d.cfg.refCounted then [] else [.leaveDel u]))
+      -- (the id is free again for a later re-summon of the same call number)
+      let d := { d with s := { d.s with thr := fun y => if y = u then ⟨.idle, 0⟩ else d.s.thr y } }
+      (d, msg ++ " resummoned")
     | none => (d, "skip")
   | _ => (d, "skip")
 
 def stepLine (d : DSt) (line : String) : DSt × String :=
   match words line with
-  | "case" :: _ => ({ cfg := d.cfg }, line)
+  | "case" :: _ => ({ cfg := d.cfg, exitRechecks := d.exitRechecks }, line)
   | "go" :: ts :: obs =>
     match ts.toNat? with
     | none => (d, "bad-op")
     | some t =>
       if t < 1 || t > 6 then (d, "bad-op") else
       let (d', msg) := goThread d t (obs.head?.bind (·.toNat?))
-      if msg == "skip" then (d', msg) else (d', s!"go {t} {msg} {render d'}")
+      let fl := if (msg.splitOn "handed-closed").length > 1 then "\t#F:C18-hands-out-closed-instance" else ""
+      if msg == "skip" || msg == "busy" then (d', msg) else (d', s!"go {t} {msg} {render d'}" ++ fl)
   | ["burst", ns] =>
     match ns.toNat? with
     | none => (d, "skip")
@@ -335,7 +358,8 @@ def run (args : List String) : IO UInt32 := do
   if arg kv "mode" == "trace" then
     lineLoop tstep { cfg := { refCounted := arg kv "refCounted" == "yes", callbackCompares := arg kv "callbackCompares" == "yes" } }
     return 0
-  lineLoop stepLine { cfg := { refCounted := arg kv "refCounted" == "yes", callbackCompares := arg kv "callbackCompares" == "yes" } }
+  lineLoop stepLine { cfg := { refCounted := arg kv "refCounted" == "yes", callbackCompares := arg kv "callbackCompares" == "yes" },
+                      exitRechecks := arg kv "exitRechecksClosing" != "no" }
   return 0
 
 end Driver.C18
